@@ -136,6 +136,13 @@ func (b *BitMatrix) FlipAll() {
 	for i := 0; i < max; i++ {
 		b.bits[i] = ^b.bits[i]
 	}
+	if shift := uint(b.width % 32); shift != 0 {
+		// keep the unused bits of each row's last word clear
+		mask := uint32(1)<<shift - 1
+		for i := b.rowSize - 1; i < max; i += b.rowSize {
+			b.bits[i] &= mask
+		}
+	}
 }
 
 func (b *BitMatrix) Xor(mask *BitMatrix) error {
